@@ -66,6 +66,41 @@ func runC14(c *Ctx) {
 		}
 		c.addDescriptor(tc)
 	}
+	// fields of ONE type under different tag options inside one struct, in either order (a codec built
+	// for a field must not be handed to the next field of the same type)
+	for _, t := range sameTypeOptionStructs() {
+		for _, cfg := range []Cfg{{}, {ProtoArrays: true}, {ProtoTime: true}} {
+			c.addDescriptor(newTypeCase(t, cfg))
+		}
+	}
+}
+
+func sameTypeOptionStructs() []reflect.Type {
+	elems := []reflect.Type{reflect.TypeOf((*int64)(nil)), reflect.TypeOf(MyInt(0)), reflect.TypeOf((*int32)(nil)), reflect.TypeOf(int16(0)),
+		reflect.TypeOf((*string)(nil)), reflect.TypeOf(""), reflect.TypeOf((**int64)(nil))}
+	var out []reflect.Type
+	for _, et := range elems {
+		base := et
+		for base.Kind() == reflect.Ptr {
+			base = base.Elem()
+		}
+		opt := "flat"
+		if base.Kind() == reflect.String {
+			opt = "intern"
+		}
+		for _, order := range [][]string{{opt, ""}, {"", opt}, {"", opt, ""}} {
+			var fs []reflect.StructField
+			for i, o := range order {
+				tag := fmt.Sprintf(`plenc:"%d"`, i+1)
+				if o != "" {
+					tag = fmt.Sprintf(`plenc:"%d,%s"`, i+1, o)
+				}
+				fs = append(fs, reflect.StructField{Name: fmt.Sprintf("F%d", i), Type: et, Tag: reflect.StructTag(tag)})
+			}
+			out = append(out, reflect.StructOf(fs))
+		}
+	}
+	return out
 }
 
 func (c *Ctx) addDescriptor(tc *TypeCase) {
